@@ -224,6 +224,7 @@ struct MetaPool {
       return 0;
     }
     if (p->refuse_addref) { ++p->n_refused; return 0; }
+    if (m->refs == UINTPTR_MAX) { ++p->n_refused; return 0; }  // a counter at its maximum cannot be raised (as mpt_refcount_raise)
     ++p->n_addref;
     return ++m->refs;
   }
